@@ -496,7 +496,10 @@ fn int_random_op(rng: &mut Rng, m: &IntModel, max_len: usize) -> IntOp {
 
 fn int_random(ctx: &mut Ctx) {
     let per_width = ctx.size(60, 900);
-    for width in 1..=64usize {
+    // The widths in an order that differs from shard to shard (37 is coprime to 64): a leg that stops on its operation
+    // budget (the interpreter legs) then covers different widths in different shards.
+    for step in 0..64usize {
+        let width = 1 + (step * 37 + ctx.shard * 11) % 64;
         for h in 0..per_width {
             if !ctx.begin_case() { continue; }
             let mut hr = ctx.rng(0x1470_0000 + (width as u64) * 100_000 + h as u64);
